@@ -30,7 +30,10 @@ import (
 
 const prop = "C05"
 
-func TestMain(m *testing.M) { vt.Main(m) }
+func TestMain(m *testing.M) {
+	vt.Watchdog = 900 * time.Second
+	vt.Main(m)
+}
 
 //go:embed tmpl/rt_test.go.txt
 var rtTemplate string
